@@ -220,11 +220,6 @@ def rechunk (b : Bytes) : List Nat → List Bytes
   | [] => []
   | n :: ns => b.take n :: rechunk (b.drop n) ns
 
-def ecAdd (c : Option (List Nat)) (e : Option Nat) : Option (List Nat) :=
-  match c, e with
-  | some es, some e => some (es ++ [e])
-  | c, _ => c
-
 def addErrList (w : World) (tk : Taker) (es : List (Option Nat)) : World :=
   es.foldl (fun w e => match e with | some e => w.addErrTo tk e | none => w) w
 
@@ -410,13 +405,12 @@ def step (st : St) (line : String) : St × String :=
   | ["ecnew", k] =>
     ({ st with ecs := st.ecs.push (if k == "nil" then none else some []) }, s!"E{st.ecs.size}")
   | ["ecadd", e, v] =>
-    ({ st with ecs := st.ecs.modify (idOf e) (fun c => (parseErrs v).foldl ecAdd c) }, "ok")
+    ({ st with ecs := st.ecs.modify (idOf e) (fun c => (parseErrs v).foldl EC.addError c) }, "ok")
   | ["ecaddlist", e, vs] =>
-    ({ st with ecs := st.ecs.modify (idOf e) (fun c => (parseErrs vs).foldl ecAdd c) }, "ok")
+    ({ st with ecs := st.ecs.modify (idOf e) (fun c => EC.addErrorList c (parseErrs vs)) }, "ok")
   | ["ecerrors", e] =>
-    (st, match st.ecs.getD (idOf e) none with
+    (st, match EC.errors (st.ecs.getD (idOf e) none) with
       | none => "nil"
-      | some [] => "nil"
       | some es => showNats es)
   | [] => (st, "")
   | _ => (st, "bad-op")
